@@ -56,6 +56,10 @@ def jobs(tier):
                                unit=unit))
     add(U + 'sample', dict(d=1, npm=2, sizes=[2, 2, 2], n=1), block=1)
     add(U + 'trim', dict(d=1, npm=2, sizes=[2, 3, 2], cache=1))
+    # the volume record that drives the allotment of proposals stays aligned
+    # with the members when one of them (not the last) is split
+    add(U + 'split', dict(d=1, npm=2, sizes=[4, 2], cache=1))
+    add(U + 'split', dict(d=1, npm=2, sizes=[2, 4, 2], cache=1))
     # "after a checkpoint round trip": member / volume records keep their
     # order and counters (field-level harness of C09)
     add('harness.bound_io:io_fields', dict(kind='Union', d=1, unit=True,
@@ -67,6 +71,11 @@ def jobs(tier):
     add(N + 'nb_sample', dict(d=1, n=1, cache=0, n_neural=2), block=B)
     add(N + 'nb_pool_merge', dict(d=1, pool=2, unroll=4, members_in_cube=True,
                                   open_uniform=True), block=B)
+    add(N + 'nb_pool_merge', dict(d=1, pool=2, unroll=3, members_in_cube=True,
+                                  open_uniform=True, periodic=[0]), block=B)
+    add(N + 'nb_sample', dict(d=1, n=1, cache=0, pool=2, unroll=4,
+                              members_in_cube=True, open_uniform=True,
+                              periodic=[0]), block=B, max_paths=6000)
     # with proposals outside the cube: the outer bound rejects in the workers
     add(N + 'nb_pool_merge', dict(d=1, pool=2, unroll=3, open_uniform=True),
         block=B, max_paths=6000)
